@@ -425,7 +425,19 @@ def replay_case(ctx, case, par, r, sweeps, seed):
                 elif act == "apply_model":
                     d = jg.DIMS[e["v"]]
                     B = np.arange(1, 2 * d + 1, dtype=float).reshape(2, d)
-                    m = cuqi.model.Model(forward=_make_forward(B), range_geometry=2, domain_geometry=d)
+                    # the domain geometry of the model is, in turn, a plain size, an identity-like geometry with a grid, a mapped
+                    # geometry and a step expansion (the distribution the model is applied to keeps ITS OWN geometry)
+                    gk = (pos + seed + r + e["v"]) % 4
+                    if gk == 0:
+                        dgeom = d
+                    elif gk == 1:
+                        dgeom = cuqi.geometry.Continuous1D(np.linspace(0, 1, d))
+                    elif gk == 2:
+                        dgeom = cuqi.geometry.MappedGeometry(cuqi.geometry.Continuous1D(d), map=lambda z: 2 * z, imap=lambda z: z / 2)
+                    else:
+                        dgeom = cuqi.geometry.StepExpansion(np.linspace(0, 1, d), n_steps=d) if d >= 2 else cuqi.geometry.Discrete(d)
+                    ctx.facets["apply_model/domain_geometry=%d" % gk] = ctx.facets.get("apply_model/domain_geometry=%d" % gk, 0) + 1
+                    m = cuqi.model.Model(forward=_make_forward(B), range_geometry=2, domain_geometry=dgeom)
                     hid = pool.add(m, "model", hidden=True)
                     hid["din"] = d
                     hid["fp"] = pool.fingerprint(hid)
@@ -532,6 +544,58 @@ def replay_case(ctx, case, par, r, sweeps, seed):
     ctx.traces += 1
 
 
+def lazy_names(ctx):
+    """NameKept for objects whose name is never given: it is inferred (lazily) from the variable the object is bound to.  Every
+    object derived from such an original - before or after the original's name was first looked up - carries that name."""
+    import cuqi
+    from cuqiverif.zoo import quiet
+    G = cuqi.distribution.Gaussian
+
+    def expect(tag, obj, want, case):
+        try:
+            got = obj.name
+        except Exception as ex:
+            got = "raises %s" % type(ex).__name__
+        ctx.case(("lazy_name", tag))
+        ctx.facets["lazy_name/" + tag] = ctx.facets.get("lazy_name/" + tag, 0) + 1
+        if got != want:
+            ctx.mismatch("name/lazy/" + tag, dict(case, tag=tag), "derived object does not carry the (inferred) name of its original", want, got)
+    case = {"kind": "lazy_names"}
+    with quiet():
+        # unconditional distribution fixed at a value, positionally, BEFORE the name of the original was ever looked up
+        zvar = G(np.zeros(2), 1.0)
+        ev = zvar(np.ones(2))
+        expect("evaluated/positional/before_lookup", ev, "zvar", case)
+        expect("original/after", zvar, "zvar", case)
+        zvar2 = G(np.zeros(2), 1.0)
+        ev2 = zvar2.to_likelihood(np.ones(2))
+        expect("evaluated/to_likelihood/before_lookup", ev2, "zvar2", case)
+        # ... and after it was looked up
+        zvar3 = G(np.zeros(2), 1.0)
+        _ = zvar3.name
+        expect("evaluated/positional/after_lookup", zvar3(np.ones(2)), "zvar3", case)
+        expect("evaluated/keyword/after_lookup", zvar3(zvar3=np.ones(2)), "zvar3", case)
+        # conditional distribution: conditioned on its parameter positionally, copy by an empty call, likelihood, fixed likelihood
+        yvar = G(lambda s: s * np.ones(2), 1.0, geometry=2)
+        cond = yvar(2.0)
+        expect("conditioned/positional/before_lookup", cond, "yvar", case)
+        yvar2 = G(lambda s: s * np.ones(2), 1.0, geometry=2)
+        lik = yvar2.to_likelihood(np.ones(2))
+        expect("likelihood/to_likelihood/before_lookup", lik, "yvar2", case)
+        expect("likelihood_fixed/positional", lik(2.0), "yvar2", case)
+        yvar3 = G(lambda s: s * np.ones(2), 1.0, geometry=2)
+        cp = yvar3()
+        expect("copy/empty_call/before_lookup", cp, "yvar3", case)
+        expect("copy_conditioned_fixed", cp(2.0)(np.ones(2)), "yvar3", case)
+        # a model applied to an unnamed distribution takes that name as its argument name
+        xvar = G(np.zeros(2), 1.0)
+        m = cuqi.model.LinearModel(np.eye(2))(xvar)
+        ctx.case(("lazy_name", "model_argument"))
+        if list(m._non_default_args) != ["xvar"]:
+            ctx.mismatch("name/lazy/model_argument", case, "a model applied to an unnamed distribution does not take its inferred name", ["xvar"], list(m._non_default_args))
+        expect("original/after_model", xvar, "xvar", case)
+
+
 def run(ctx):
     from cuqiverif.core import MachineryError
     warnings.filterwarnings("ignore")
@@ -589,9 +653,11 @@ def run(ctx):
                 par = graphs[i % 2]         # the two graphs in which variable 1 has the parents 2, 3, 4
         ctx.case(("objhist", str(par), r, str(c["hist"])))
         replay_case(ctx, c, par, r, sweeps if i % 7 == 0 else 5, 9000 + ctx.seed)
+    lazy_names(ctx)
     need = {"action/condition", "action/to_likelihood", "action/copy_enable_fd", "action/apply_model", "action/logd",
             "action/gradient", "action/sample", "action/run_sampler", "action/gibbs", "action/cond_factor", "action/mutate_copy", "action/bad_call",
-            "action/mutate_original", "mutate/lik_fd_switch", "to_likelihood/method", "to_likelihood/call", "sampler/MH", "sampler/CWMH", "sampler/MALA", "sampler/ULA", "sampler/NUTS"}
+            "action/mutate_original", "mutate/lik_fd_switch", "to_likelihood/method", "to_likelihood/call", "apply_model/domain_geometry=0", "apply_model/domain_geometry=1",
+            "apply_model/domain_geometry=2", "apply_model/domain_geometry=3", "lazy_name/likelihood_fixed/positional", "sampler/MH", "sampler/CWMH", "sampler/MALA", "sampler/ULA", "sampler/NUTS"}
     need |= {"composite/" + nm for nm, _ in _composites()}
     if not need <= set(ctx.facets):
         raise MachineryError("vacuous replay: actions never exercised: %s" % sorted(need - set(ctx.facets)))
